@@ -270,14 +270,15 @@ type Machine struct {
 	xSol   *Solver
 	stats  *SolverStats
 
-	globals  map[*ssa.Global]*Cell
-	inInit   bool
-	undo     []undoRec
-	mapUndos []mapUndo
-	nextObj  int
-	epoch    int
-	depth    int
-	steps    int
+	globals   map[*ssa.Global]*Cell
+	inInit    bool
+	undo      []undoRec
+	mapUndos  []mapUndo
+	chanUndos []chanUndo
+	nextObj   int
+	epoch     int
+	depth     int
+	steps     int
 
 	// per path
 	pc            []*Term
@@ -296,6 +297,7 @@ type Machine struct {
 	varBound      map[string]int
 	syncMaps      map[*Cell]*MapObj
 	syncPools     map[*Cell][]Val
+	taintedSlices []*ArrObj
 	prefix        []int
 	pos           int
 	spawn         [][]int
@@ -417,6 +419,11 @@ func (m *Machine) resetPath(prefix []int) {
 		u.m.ents, u.m.idx, u.m.n, u.m.nsym = u.ents, u.idx, u.n, u.nsym
 	}
 	m.mapUndos = m.mapUndos[:0]
+	for i := len(m.chanUndos) - 1; i >= 0; i-- {
+		u := m.chanUndos[i]
+		u.ch.q, u.ch.closed = u.q, u.closed
+	}
+	m.chanUndos = m.chanUndos[:0]
 	m.pc = nil
 	m.pcIndex = nil
 	m.dom = nil
